@@ -197,7 +197,13 @@ def generate_registry(rf='tape'):
                      inline=[IN + '.' + m for m in ('__init__', '__int__', '__gt__', '__lt__', '__le__', '__ge__', '__eq__', '__ne__', '__sub__',
                                                     '__add__', '__mul__', '__abs__', 'gcd')],
                      # (feas_ms: budget of one path-pruning query; a time-out keeps the path, so this only trades run time)
-                     modifies=[TPR + '.g_pos'], result=OKEY, options={'feas_ms': 50}))
+                     modifies=[TPR + '.g_pos'], result=OKEY,
+                     options={'feas_ms': 50,
+                              # proof steps right after the two prime generations (short path condition: a broken filter bound gives a
+                              # definite counter-model): each prime exceeds sqrt(2)*2**(size-1) for ITS OWN size; the distance
+                              'after_call': {PRIME: {1: [helper[0], 'size_p == %s' % SP, 'ival(result) > %s' % (ISQ % 'size_p')],
+                                                     2: [helper[1], 'size_q == %s' % SQ, 'ival(result) > %s' % (ISQ % 'size_q'),
+                                                         'abs(ival(result) - ival(p)) > pow2(bits // 2 - 100)']}}}))
     return reg
 
 
@@ -209,8 +215,8 @@ def units(prop, tier):
                 pyvc_unit(prop, 'key.rsa.roundtrip.pkcs1', roundtrip_registry, ['spec.keys_harness.rsa_pkcs1_roundtrip'])]
     if prop == 'C05':
         return [pyvc_unit(prop, 'key.rsa.construct', registry, [R + 'construct']),
-                pyvc_unit(prop, 'key.rsa.generate', generate_registry, [R + 'generate'], timeout_ms=120000),
-                pyvc_unit(prop, 'key.rsa.generate.sysrng', functools.partial(generate_registry, 'none'), [R + 'generate'], timeout_ms=120000)]
+                pyvc_unit(prop, 'key.rsa.generate', generate_registry, [R + 'generate'], timeout_ms=45000),
+                pyvc_unit(prop, 'key.rsa.generate.sysrng', functools.partial(generate_registry, 'none'), [R + 'generate'], timeout_ms=45000)]
     if prop == 'C13':
         return [pyvc_unit(prop, 'key.rsa.import_der', cascade_registry, [R + f for f in CASCADE])]
     return []
